@@ -15,8 +15,10 @@ import (
 	"reflect"
 	"runtime"
 	"runtime/metrics"
+	"sort"
 	"strings"
 	"sync"
+	"unsafe"
 
 	"github.com/btcsuite/btcd/btcec/v2"
 	"github.com/lightningnetwork/lnd/internal/verif/c10ref"
@@ -80,13 +82,24 @@ func c10DrawType(t *rapid.T) MessageType {
 	types := c10RegisteredTypes()
 	n := len(types) + len(types)/12 + 1
 	x := rapid.Uint32().Draw(t, "typeSel")
-	i := int((uint64(x)*2654435761 + 12345) >> 7 % uint64(n))
+	i := int(c10Mix(x) % uint32(n))
 	if i < len(types) {
 		return types[i]
 	}
 
 	return MessageType(rapid.SampledFrom([]int{32768, 32769, 40000, 65534,
 		65535}).Draw(t, "customType"))
+}
+
+// c10Mix spreads a drawn 32-bit value (murmur3 finaliser).
+func c10Mix(x uint32) uint32 {
+	x ^= x >> 16
+	x *= 0x85ebca6b
+	x ^= x >> 13
+	x *= 0xc2b2ae35
+	x ^= x >> 16
+
+	return x
 }
 
 // c10FailCodes are all codes makeEmptyOnionError knows, found by probing the
@@ -294,20 +307,33 @@ func c10Head(b []byte) []byte {
 	return b
 }
 
-var (
-	c10UseMetrics bool
-	c10Sample     = []metrics.Sample{{Name: "/gc/heap/allocs:bytes"}}
-)
+var c10Sample = []metrics.Sample{{Name: "/gc/heap/allocs:bytes"}}
 
-func c10AllocNow() uint64 {
-	if c10UseMetrics {
-		metrics.Read(c10Sample)
-		return c10Sample[0].Value.Uint64()
+func c10MetricsNow() uint64 {
+	metrics.Read(c10Sample)
+
+	return c10Sample[0].Value.Uint64()
+}
+
+// c10Measure returns the heap bytes f allocates. The cheap runtime/metrics
+// counter (which may attribute up to a few MiB of earlier small allocations
+// to the window) screens; anything above a quarter of the cap is measured
+// again, exactly, with runtime.ReadMemStats (f is deterministic and is simply
+// run once more).
+func c10Measure(f func()) uint64 {
+	before := c10MetricsNow()
+	f()
+	d := c10MetricsNow() - before
+	if d <= c10AllocCap/4 {
+		return d
 	}
 	var ms runtime.MemStats
 	runtime.ReadMemStats(&ms)
+	exact := ms.TotalAlloc
+	f()
+	runtime.ReadMemStats(&ms)
 
-	return ms.TotalAlloc
+	return ms.TotalAlloc - exact
 }
 
 // c10AllocCap is the amplification cap of part 3: what decoding one message
@@ -347,10 +373,11 @@ func c10Read(t c10TB, st *vstats.Collector, b []byte) (msg Message, rest int,
 				c10Head(b))
 		}
 	}()
-	rd := bytes.NewReader(b)
-	before := c10AllocNow()
-	msg, err = ReadMessage(rd, 0)
-	alloc := c10AllocNow() - before
+	var rd *bytes.Reader
+	alloc := c10Measure(func() {
+		rd = bytes.NewReader(b)
+		msg, err = ReadMessage(rd, 0)
+	})
 	if alloc > c10MaxAlloc {
 		c10MaxAlloc = alloc
 	}
@@ -562,4 +589,145 @@ func c10ExtraField(m Message) (reflect.Value, bool) {
 	}
 
 	return reflect.Value{}, false
+}
+
+// c10DeepCopy returns an independent deep copy of a message value (including
+// unexported fields), taken before Encode gets to mutate it.
+func c10DeepCopy(m Message) Message {
+	src := reflect.ValueOf(m)
+	dst := reflect.New(src.Type()).Elem()
+	c10CopyInto(dst, src)
+
+	return dst.Interface().(Message)
+}
+
+// c10Access makes a (possibly unexported) addressable field usable.
+func c10Access(v reflect.Value) reflect.Value {
+	if v.CanSet() || !v.CanAddr() {
+		return v
+	}
+
+	return reflect.NewAt(v.Type(), unsafe.Pointer(v.UnsafeAddr())).Elem()
+}
+
+// c10CopyInto deep-copies src into the settable dst. src must be addressable
+// or obtained through exported paths only.
+func c10CopyInto(dst, src reflect.Value) {
+	switch src.Kind() {
+	case reflect.Ptr:
+		if src.IsNil() {
+			return
+		}
+		n := reflect.New(src.Type().Elem())
+		c10CopyInto(n.Elem(), src.Elem())
+		dst.Set(n)
+
+	case reflect.Interface:
+		if src.IsNil() {
+			return
+		}
+		e := src.Elem()
+		n := reflect.New(e.Type()).Elem()
+		if e.CanAddr() {
+			c10CopyInto(n, e)
+		} else {
+			// interface payloads are not addressable: copy through
+			// an addressable temporary
+			tmp := reflect.New(e.Type()).Elem()
+			tmp.Set(e)
+			c10CopyInto(n, tmp)
+		}
+		dst.Set(n)
+
+	case reflect.Struct:
+		// Work on an addressable copy so that unexported fields can be
+		// reached.
+		s := src
+		if !s.CanAddr() {
+			tmp := reflect.New(src.Type()).Elem()
+			tmp.Set(src)
+			s = tmp
+		}
+		for i := 0; i < s.NumField(); i++ {
+			c10CopyInto(c10Access(dst.Field(i)), c10Access(s.Field(i)))
+		}
+
+	case reflect.Slice:
+		if src.IsNil() {
+			return
+		}
+		n := reflect.MakeSlice(src.Type(), src.Len(), src.Len())
+		for i := 0; i < src.Len(); i++ {
+			c10CopyInto(n.Index(i), src.Index(i))
+		}
+		dst.Set(n)
+
+	case reflect.Array:
+		for i := 0; i < src.Len(); i++ {
+			c10CopyInto(dst.Index(i), src.Index(i))
+		}
+
+	case reflect.Map:
+		if src.IsNil() {
+			return
+		}
+		n := reflect.MakeMapWithSize(src.Type(), src.Len())
+		it := src.MapRange()
+		for it.Next() {
+			k := reflect.New(src.Type().Key()).Elem()
+			c10CopyInto(k, c10Temp(it.Key()))
+			v := reflect.New(src.Type().Elem()).Elem()
+			c10CopyInto(v, c10Temp(it.Value()))
+			n.SetMapIndex(k, v)
+		}
+		dst.Set(n)
+
+	default:
+		dst.Set(src)
+	}
+}
+
+// c10Temp copies a non-addressable value into an addressable temporary.
+func c10Temp(v reflect.Value) reflect.Value {
+	tmp := reflect.New(v.Type()).Elem()
+	tmp.Set(v)
+
+	return tmp
+}
+
+// c10NormaliseOrder applies, with an independent sort, the one reordering
+// Encode is documented to perform: short channel ids ascending, timestamps
+// moving with their id.
+func c10NormaliseOrder(m Message) {
+	switch v := m.(type) {
+	case *QueryShortChanIDs:
+		sort.Slice(v.ShortChanIDs, func(i, j int) bool {
+			return v.ShortChanIDs[i].ToUint64() <
+				v.ShortChanIDs[j].ToUint64()
+		})
+
+	case *ReplyChannelRange:
+		type pair struct {
+			id ShortChannelID
+			ts ChanUpdateTimestamps
+		}
+		withTs := len(v.Timestamps) == len(v.ShortChanIDs) &&
+			len(v.Timestamps) > 0
+		ps := make([]pair, len(v.ShortChanIDs))
+		for i, id := range v.ShortChanIDs {
+			ps[i].id = id
+			if withTs {
+				ps[i].ts = v.Timestamps[i]
+			}
+		}
+		sort.SliceStable(ps, func(i, j int) bool {
+			return ps[i].id.ToUint64() < ps[j].id.ToUint64()
+		})
+		for i, p := range ps {
+			v.ShortChanIDs[i] = p.id
+			if withTs {
+				v.Timestamps[i] = p.ts
+			}
+		}
+	}
 }
